@@ -21,6 +21,19 @@ import (
 // runLockstep is the hook of the optional second engine (nil = not built in).
 var runLockstep func(o *common.Options, rep *common.Report) error
 
+// failCapped keeps at most 4 failures per key in the report's (capped) list so that one frequent key does not
+// crowd out the other keys; every failure is still counted in the distribution.
+var failsPerKey = map[string]int{}
+
+func failCapped(rep *common.Report, f common.OracleFailure) {
+	failsPerKey[f.Key]++
+	if failsPerKey[f.Key] <= 4 {
+		rep.Fail(f)
+	} else {
+		rep.Count("ORACLE-FAIL:" + f.Key)
+	}
+}
+
 func main() {
 	o := common.ParseFlags()
 	if spec := os.Getenv(envChild); spec != "" { // engine conc runs its cases in child processes (child.go)
